@@ -91,8 +91,11 @@ def pipeline(case, work, workers=None):
                           prefixes=[f"p{i}" for i in range(len(names))] if len(names) > 1 else [None],
                           decoys=True, deduplication=case.get("dedup", True))
         files = {n: read_result(out / n) for n in listing(out)}
+        # rows (by key) in the order in which every fit call received them: an order-sensitive learner (the default
+        # SVM with its shuffled CV) would turn a changed training-row order into changed scores
+        fit_rows = tuple(tuple(e[2] for e in m.estimator.log_ if e[0] == "fit") for m in models)
         return {"scores": [np.asarray(s, dtype=float).ravel() for s in scores], "files": files,
-                "trained": all(m.is_trained for m in models)}
+                "trained": all(m.is_trained for m in models), "fit_rows": fit_rows}
     finally:
         set_chunks(**DEFAULT_CHUNKS)
         shutil.rmtree(work / "out", ignore_errors=True)
@@ -107,6 +110,8 @@ def compare(ref, got, pep_tol=1e-6):
         elif not np.allclose(a, b, rtol=1e-9, atol=1e-9):
             j = int(np.argmax(np.abs(a - b)))
             errs.append(("scores-differ", f"file {i}: score of row {j} is {b[j]!r}, reference {a[j]!r}"))
+    if ref.get("fit_rows") != got.get("fit_rows"):
+        errs.append(("training-row-order-differs", "the estimator received its training rows in another order than in the reference run"))
     if sorted(ref["files"]) != sorted(got["files"]):
         errs.append(("file-set-differs", f"files {sorted(got['files'])} vs reference {sorted(ref['files'])}"))
         return errs
@@ -258,9 +263,10 @@ def worker(item):
 # E2
 # ------------------------------------------------------------------------------------------------
 def e2_body(kind, work):
-    if kind == "pipeline":
-        case = {"data": "A", "config": {"CONFIDENCE_CHUNK_SIZE": 9, "CHUNK_SIZE_READ_ALL_DATA": 10,
-                                        "CHUNK_SIZE_ROWS_PREDICTION": 13, "workers": 3}}
+    if kind in ("pipeline", "pipeline2"):
+        case = {"data": "A" if kind == "pipeline" else ["A", "B"],
+                "config": {"CONFIDENCE_CHUNK_SIZE": 9, "CHUNK_SIZE_READ_ALL_DATA": 10 if kind == "pipeline" else 14,
+                           "CHUNK_SIZE_ROWS_PREDICTION": 13 if kind == "pipeline" else 30, "workers": 3}}
 
         def body(case=case, w=3):
             r = pipeline(case, work, workers=w)
@@ -273,7 +279,7 @@ def e2_body(kind, work):
                 return tuple(map(tuple, df.round(9).astype(str).values.tolist()))
 
             return (tuple(tuple(float(f"{v:.11g}") for v in s) for s in r["scores"]),
-                    tuple((n, canon(df)) for n, df in sorted(r["files"].items())))
+                    tuple((n, canon(df)) for n, df in sorted(r["files"].items())), r["fit_rows"])
 
         seq = lambda: body(w=1)  # noqa: E731
         return body, seq
@@ -453,6 +459,11 @@ def run(ctx):
             return (1, "task") if ctx.quick else (2, "task")
         # pipeline: invocations 0,1 parse; 2 fit; 3.. predict; last = confidence chunk writer.
         # quick: brew's pools are explored by C02's quick tier (same engine, same tasks); here only the chunk writer
+        if kind == "pipeline2":
+            # two jointly modelled files: invocations 0,1 read the files, 2 = per-file concat/reindex pool (two tasks)
+            if focus == 2:
+                return (1, "entry") if ctx.quick else (2, "entry")
+            return None if ctx.quick else ((1, "task") if focus < 2 else None)
         if ctx.quick:
             return (1, "task") if focus == ninv - 1 else None
         if focus == 2:
@@ -460,7 +471,7 @@ def run(ctx):
         return (2, "task") if focus == ninv - 1 else (1, "entry")
 
     infos, e2_items = [], []
-    for kind in ("pin", "confidence_ties", "pipeline"):
+    for kind in ("pin", "confidence_ties", "pipeline2", "pipeline"):
         it, info = e2_plan(ctx, kind, bounds)
         e2_items += it
         infos.append(info)
